@@ -4,6 +4,7 @@ package remoteclient
 
 import (
 	"context"
+	"encoding/json"
 	"errors"
 	"fmt"
 	"os"
@@ -97,15 +98,19 @@ func c27Gen(t *rapid.T) c27Case {
 	}
 	acts := []int{c27ActOK, c27ActOK, c27ActOK, c27ActErrReply, c27ActClose, c27ActDeliverClose}
 	np := rapid.IntRange(0, 10).Draw(t, "plan_n")
-	delays := 0
 	for i := 0; i < np; i++ {
-		a := rapid.SampledFrom(acts).Draw(t, "act")
-		// one delayed batch costs the full 5 s flush timeout: thorough tier only, about one case in 150
-		if vfkit.Thorough() && delays == 0 && rapid.IntRange(0, 600).Draw(t, "delay") == 0 {
-			a = c27ActDelay
-			delays++
+		c.Plan = append(c.Plan, rapid.SampledFrom(acts).Draw(t, "act"))
+	}
+	// one delayed batch costs the full 5 s flush timeout: thorough tier only, about one case in 1000
+	// (ten fair coins: rapid's integer generators are biased towards small values)
+	if vfkit.Thorough() && np > 0 {
+		all := true
+		for _, b := range rapid.SliceOfN(rapid.Bool(), 10, 10).Draw(t, "delay_coins") {
+			all = all && b
 		}
-		c.Plan = append(c.Plan, a)
+		if all {
+			c.Plan[rapid.IntRange(0, np-1).Draw(t, "delay_at")] = c27ActDelay
+		}
 	}
 	c.Gate = rapid.SampledFrom([]int{-1, -1, 0, 0, 0, 1, 2}).Draw(t, "gate")
 	c.CloseAfter = rapid.OneOf(rapid.IntRange(0, total), rapid.SampledFrom([]int{0, 1, c.MaxBatch, c.MaxBatch + 1, 2 * c.MaxBatch, 4 * c.MaxBatch, 4*c.MaxBatch + 1, total})).Draw(t, "close_after")
@@ -672,6 +677,14 @@ func c27Exec(x *vfkit.X, c c27Case) {
 			fp = fpC27CloseRace
 		}
 		// VF_C27_STRICT=1 (used to validate fix diffs): report even while listed as known
+		if path := os.Getenv("VF_C27_STRICT"); strings.HasPrefix(path, "/") {
+			// fix validation only: keep the evidence of every leftover, the scratch run directory is deleted
+			if f, err := os.OpenFile(path, os.O_APPEND|os.O_CREATE|os.O_WRONLY, 0o644); err == nil {
+				cj, _ := json.Marshal(c)
+				fmt.Fprintf(f, "%s lostQueued=%d lostAfterClose=%d pendingAtClose=%d batches=%v case=%s\n", fp, len(lostQueued), lostAfterClose, pendingAtClose, st.batches, cj)
+				_ = f.Close()
+			}
+		}
 		if x.Known(fp) && os.Getenv("VF_C27_STRICT") == "" {
 			x.Class("known_" + fp + "_tolerated")
 		} else if fp == fpC27CloseDrop {
